@@ -67,6 +67,8 @@ def run(tier, v):
                     par = {"workers": 2, "queue": 64, "batch": 2, "timeout_ms": 5}
                     ana.append(dict(base, id="G|%d|%s|%s|%d" % k, crate=crate + "_par", frames=frames, filter=cfg, parallel=par, repeat=2 if crate == "tcp" else 1))
                     ana.append(dict(base, id="H|%d|%s|%s|%d" % k, crate=crate + "_par", frames=sub, filter=None, parallel=par))
+                    # the filter installed on an analyzer whose pool had already been initialised once (init_pool again afterwards)
+                    ana.append(dict(base, id="L|%d|%s|%s|%d" % k, crate=crate + "_par", frames=frames, filter=cfg, parallel=par, late_filter=True))
                 if crate != "uni" and (tier == "thorough" or ci % 4 == 0):
                     for nw in (1, 3):
                         pool.append({"id": "P%d|%d|%s|%s|%d" % ((nw,) + k), "crate": crate, "workers": nw, "queue": 64, "batch": 2, "timeout_ms": 5, "dispatchers": [frames], "filter": cfg,
@@ -242,14 +244,14 @@ def run(tier, v):
         want = res.get(("U",) + k)
         if want is None:
             continue
-        for kind in ("F", "P1", "P3", "G"):
+        for kind in ("F", "P1", "P3", "G", "L"):
             got = res.get((kind,) + k)
             if got is None:
                 continue
             n += 1
             n_nontriv += bool(want) or bool(got)
             w = want
-            if kind == "G":
+            if kind in ("G", "L"):
                 w = res.get(("H",) + k)
                 if w is None:
                     continue
@@ -265,7 +267,8 @@ def run(tier, v):
                 for d in m["class"]:
                     v.known_hit(d, WHAT[d])
                 continue
-            v.violation({"shape": m["shape"], "analyzer": m["analyzer"], "path": {"F": "analyze_pcap", "P1": "worker pool (1 worker)", "P3": "worker pool (3 workers)", "G": "parallel front end (with_config + init_pool + analyze_pcap; the TCP analyzer used for a second capture)"}[kind], "trace": m["trace"],
+            v.violation({"shape": m["shape"], "analyzer": m["analyzer"], "path": {"F": "analyze_pcap", "P1": "worker pool (1 worker)", "P3": "worker pool (3 workers)", "G": "parallel front end (with_config + init_pool + analyze_pcap; the TCP analyzer used for a second capture)",
+                                                                                        "L": "parallel front end, the filter installed after a first init_pool (with_config + init_pool + with_filter + init_pool + analyze_pcap)"}[kind], "trace": m["trace"],
                          "filter": m["filter"], "frames": m["frames"], "admitted_subtrace": m["admitted_subtrace"], "results_with_filter": got, "results_without_filter_on_admitted_subtrace": w,
                          "input_class_of_recorded_deviation": m["class"]})
     return v.finish("model_checking", {
